@@ -162,6 +162,14 @@ def run(ctx):
         cases, nedges = graph_cases(ctx, "MC_Containers_replay_quick.cfg", ctx.seed)
     else:
         cases, nedges = graph_cases(ctx, "MC_Containers_replay_thorough.cfg", ctx.seed)
+    # 2b. deeper histories of narrow operation families around history-dependent hidden state (import from a foreign
+    #     namespace ; namespace change of the container ; import from the same foreign namespace again; and the
+    #     data set / matrix analogue), every transition replayed as well
+    for fam in ("L", "D"):
+        fc, fe = graph_cases(ctx, "MC_Containers_focus%s_%s.cfg" % (fam, "quick" if quick else "thorough"), ctx.seed + ord(fam))
+        cases += fc
+        nedges += fe
+        ctx.extra["focus_%s_transitions" % fam] = fe
     # 3. seeded random histories: TLC-simulated behaviours of the larger universe
     nsim, sdepth = (600, 10) if quick else (3000, 14)
     sims = sim_cases(ctx, "Sim_Containers_quick.cfg" if quick else "Sim_Containers_thorough.cfg", nsim, sdepth + 1, ctx.seed)
@@ -169,7 +177,9 @@ def run(ctx):
     ctx.judge("Trace_Containers", driven, batch=3000, heap="2g")
     split_drift(ctx)
     account(ctx, driven)
-    ctx.rule = ("cases = one real execution per transition of the dumped TLC state graph of MC_Containers to depth 2 "
+    ctx.rule = ("cases = one real execution per transition of the dumped TLC state graphs of MC_Containers: all operations to "
+                "depth 2 and the focus families (foreign import / container namespace change / import again; data set "
+                "read / attach / unify / read again) to depth %d " % (3 if quick else 4) +
                 "(%d transitions; universe built from the model's initial state, shortest path replayed, the edge judged) "
                 "+ %d TLC-simulated histories of %d operations on the larger universe (all calls judged); "
                 "distinct_nontrivial counts distinct (operation, arguments, projected universe before the call) triples "
